@@ -38,6 +38,7 @@ func checkC07(ctx *Ctx, r *Report) {
 	c07SecondHunt(ctx, r)
 	c07CallbackState(ctx, r)
 	c18Payloads(ctx, r)
+	c18NilnessOfCollections(ctx, r)
 	stickyErrors(ctx, r, "errflow/sticky", func(p *packages.Package) bool {
 		return p.PkgPath == astPkgPath || p.PkgPath == modulePath+"/internal/codegen" || p.PkgPath == compilerPkgPath
 	})
